@@ -536,7 +536,10 @@ func (c *c18Child) evalHost(host string, sb *c18Sandbox, src string) (rel.Value,
 	if cerr != nil {
 		return nil, nil, "HARNESS: host template does not compile: " + cerr.Error()
 	}
+	// c18srcb: the same source handed over as a byte array (the *-bytes forms): the sandbox must
+	// treat every representation of its source alike
 	sc := rel.EmptyScope.With("c18sb", sb.fn).With("c18src", rel.NewString([]rune(src))).
+		With("c18srcb", rel.NewBytes([]byte(src))).
 		With("hostBound", rel.NewString([]rune(c.token("scope"))))
 	ctx := c18EvalCtx()
 	return c18Guard(func() (rel.Value, error) { return e.Eval(ctx, sc) })
